@@ -95,6 +95,17 @@ fn span_str<'tcx>(tcx: TyCtxt<'tcx>, sp: rustc_span::Span) -> (String, usize, bo
     (file, lo.line, exp)
 }
 
+fn macro_names(sp: rustc_span::Span) -> String {
+    // names of the macros in the expansion backtrace of a span, outermost last (e.g. "assert_eq,debug_assert_eq")
+    let mut v: Vec<String> = Vec::new();
+    for ed in sp.macro_backtrace() {
+        if let rustc_span::ExpnKind::Macro(_, name) = ed.kind {
+            v.push(name.to_string());
+        }
+    }
+    v.join(",")
+}
+
 fn const_str<'tcx>(tcx: TyCtxt<'tcx>, op: &Operand<'tcx>) -> Option<String> {
     if let Operand::Constant(c) = op {
         let ty = c.const_.ty();
@@ -386,7 +397,7 @@ impl Callbacks for Cb {
                         ncalls += 1;
                         let _ = write!(
                             calls,
-                            "[{},{},{},{},{},[{}],{},{},[{}]]",
+                            "[{},{},{},{},{},[{}],{},{},[{}],{}]",
                             bi.index(),
                             callee_idx,
                             cl,
@@ -395,7 +406,8 @@ impl Callbacks for Cb {
                             cs.iter().map(|s| esc(s)).collect::<Vec<_>>().join(","),
                             esc(&gen),
                             callee_unsafe,
-                            arg_fns.iter().map(|s| esc(s)).collect::<Vec<_>>().join(",")
+                            arg_fns.iter().map(|s| esc(s)).collect::<Vec<_>>().join(","),
+                            esc(&macro_names(*fn_span))
                         );
                         if with_cfg {
                             match target {
@@ -426,7 +438,7 @@ impl Callbacks for Cb {
                             asserts.push(',');
                         }
                         nasserts += 1;
-                        let _ = write!(asserts, "[\"{}\",{},{}]", k, tline, texp);
+                        let _ = write!(asserts, "[\"{}\",{},{},{}]", k, tline, texp, esc(&macro_names(term.source_info.span)));
                         if with_cfg {
                             let _ = write!(blocks, "[\"a\",{}]", target.index());
                         }
